@@ -53,7 +53,10 @@ def run(ctx):
     ctx.clause("exactly one unknown per internal interface; equations only for end points of used interfaces")
     ext = T.attr(SELF, "externals_to_use")
     none_branch = [T.cmp("NotEq", ext, ("str", "all")), T.cmp("NotEq", ext, ("str", "ext"))]
-    st = [e for e in s.stores("big_edges_to_use") if e.base == SELF and all(c in e.conds() for c in none_branch)]
+    # decided under the configuration itself (externals_to_use bound to 'none'): the branches of the option handling fold away wherever
+    # they are written (in the constructor or in a helper it calls), and exactly one assignment of the unknowns remains
+    s_none = sym.summarize(repo, f.qualname, heap={ext: ("str", "none")})
+    st = [e for e in s_none.stores("big_edges_to_use") if e.base == SELF]
     ok = len(st) == 1 and st[0].value == T.idx(T.call(f"{FM}.get_angle_limited_edges", (SELF,)), T.num(0))
     ctx.check(ok, "ALIGN", f"{f.qualname} / ALIGN / unknowns = get_angle_limited_edges()[0]", ctx.where(f),
               "big_edges_to_use = internal interfaces minus the angle-excluded ones (order-preserving, see C16 ALIGN)",
@@ -419,8 +422,6 @@ def run(ctx):
     ctx.count("FORM", "circle-fit call sites in calculate_circle_center", len(fits), 3)
     # the returned pair, branch by branch, is (F[0], F[1]) of one and the same fit F (or the two coordinate means of the fallback)
     ret = scf.ret()
-    if ret[0] != "seq" or len(ret[1]) != 2:
-        raise AnalysisError(f"{ctx.where(cf)}: return shape of calculate_circle_center not understood: {T.show(T.alpha(ret))[:160]}")
     bad_pairs = []
 
     def pairwise(x, y):
@@ -433,7 +434,16 @@ def run(ctx):
             pass
         else:
             bad_pairs.append((T.show(T.alpha(x))[:80], T.show(T.alpha(y))[:80]))
-    pairwise(ret[1][0], ret[1][1])
+    def walk_ret(t):
+        # a pair of choices, or a choice between pairs (early returns): the same pairs either way
+        if t[0] == "phi":
+            walk_ret(t[2])
+            walk_ret(t[3])
+        elif t[0] == "seq" and len(t[1]) == 2:
+            pairwise(t[1][0], t[1][1])
+        else:
+            raise AnalysisError(f"{ctx.where(cf)}: return shape of calculate_circle_center not understood: {T.show(T.alpha(t))[:160]}")
+    walk_ret(ret)
     ctx.check(not bad_pairs, "FORM", f"{cf.qualname} / FORM / returns (centre[0], centre[1]) of one fit", ctx.where(cf),
               "x and y of the same fitted centre", f"returned centre pairs {bad_pairs[:2]}")
 
